@@ -45,6 +45,20 @@ Proof. reflexivity. Qed.
 Lemma concat_snoc {A} (q : list (list A)) d : concat (q ++ [d]) = concat q ++ d.
 Proof. rewrite concat_app. cbn. rewrite app_nil_r. reflexivity. Qed.
 
+(* the loop of flush_async is the loop of _sockSendAll *)
+Lemma flush_loop_is_send_all : forall s buf y wire, flush_loop buf y wire s = send_all buf y wire s.
+Proof.
+  induction s as [|ev s IH]; intros buf y wire; [reflexivity|].
+  destruct ev as [k|e]; cbn [flush_loop send_all].
+  - pose proof (accepted_range k buf) as Hr.
+    rewrite zlen_skipn by lia.
+    destruct (accepted k buf =? zlen buf) eqn:E.
+    + apply Z.eqb_eq in E. rewrite E. replace (zlen buf - zlen buf =? 0) with true by (symmetry; apply Z.eqb_eq; lia).
+      unfold zlen. rewrite Nat2Z.id. rewrite firstn_all. reflexivity.
+    + destruct (zlen buf - accepted k buf =? 0) eqn:E2; [lia|]. apply IH.
+  - destruct (is_wb e); [apply IH|reflexivity].
+Qed.
+
 (* tlslite's discipline: buffer_writes is only switched off (and a direct send only made)
    when the queue has been flushed.  [bwf] = buffering on, [qe] = queue known empty. *)
 Fixpoint disciplined (ops : list wop) (bwf qe : bool) : bool :=
@@ -52,6 +66,7 @@ Fixpoint disciplined (ops : list wop) (bwf qe : bool) : bool :=
   | [] => true
   | WSend _ :: r => if bwf then disciplined r true false else qe && disciplined r false qe
   | WFlush :: r => disciplined r bwf true
+  | WFlushA :: r => disciplined r bwf true
   | WBuffer v :: r => (v || qe) && disciplined r v qe
   end.
 
@@ -60,8 +75,9 @@ Definition q_empty (bsk : bsock) : bool := zlen (concat (queue bsk)) =? 0.
 Lemma disciplined_weaken ops : forall bwf, disciplined ops bwf false = true -> disciplined ops bwf true = true.
 Proof.
   induction ops as [|op ops IH]; intros bwf H; [reflexivity|].
-  destruct op as [d| |v]; cbn [disciplined] in *.
+  destruct op as [d| | |v]; cbn [disciplined] in *.
   - destruct bwf; [exact H|]. cbn in H. discriminate.
+  - exact H.
   - exact H.
   - apply andb_true_iff in H. destruct H as [H1 H2]. apply andb_true_iff.
     split; [destruct v; [reflexivity|cbn in H1; discriminate]|]. apply IH. exact H2.
@@ -78,7 +94,7 @@ Lemma bs_run_order : forall ops y bsk wire s,
 Proof.
   induction ops as [|op ops IH]; intros y bsk wire s Hs Hd; cbn zeta.
   - cbn. split; [intros; discriminate|]. intros _. rewrite app_nil_r. reflexivity.
-  - destruct op as [d| |v]; cbn [bs_run]; rewrite sent_data_cons; cbn [disciplined] in Hd.
+  - destruct op as [d| | |v]; cbn [bs_run]; rewrite sent_data_cons; cbn [disciplined] in Hd.
     + (* WSend *)
       unfold bs_send_all. destruct (bw bsk) eqn:Eb.
       * assert (Hd' : disciplined ops true (q_empty {| bw := true; queue := queue bsk ++ [d] |}) = true).
@@ -119,6 +135,30 @@ Proof.
         -- assert (Hd' : disciplined ops (bw {| bw := bw bsk; queue := [] |}) (q_empty {| bw := bw bsk; queue := [] |}) = true)
              by exact Hd.
            specialize (IH y {| bw := bw bsk; queue := [] |} w1 s1 Hr Hd'). cbn zeta in IH.
+           destruct IH as [IH1 IH2]. split; [exact IH1|].
+           intros Hdone. rewrite (IH2 Hdone). cbn [queue concat app].
+           rewrite (H3 eq_refl) in H1. rewrite app_nil_r in H1. subst w1. rewrite H1.
+           rewrite <- app_assoc. reflexivity.
+        -- exfalso. exact (Hn e eq_refl).
+        -- unfold o_of. cbn [fst snd]. split; intros; discriminate.
+    + (* WFlushA *)
+      unfold bs_flush_async.
+      destruct (zlen (concat (queue bsk)) =? 0) eqn:Ez.
+      * assert (Hd' : disciplined ops (bw {| bw := bw bsk; queue := [] |}) (q_empty {| bw := bw bsk; queue := [] |}) = true)
+          by exact Hd.
+        specialize (IH (y + 0) {| bw := bw bsk; queue := [] |} wire s Hs Hd'). cbn zeta in IH.
+        destruct IH as [IH1 IH2]. split; [exact IH1|].
+        intros Hdone. rewrite (IH2 Hdone). cbn [queue concat app].
+        apply Z.eqb_eq in Ez. apply zlen_nil in Ez. rewrite Ez. reflexivity.
+      * rewrite flush_loop_is_send_all.
+        pose proof (send_all_accept_only s (concat (queue bsk)) 0 wire Hs) as [Hn Hr].
+        pose proof (send_all_exact_l s (concat (queue bsk)) 0 wire) as Hex. cbn zeta in Hex.
+        destruct (send_all (concat (queue bsk)) 0 wire s) as [[[y1 o1] w1] s1].
+        cbn [fst snd] in *. destruct Hex as [sent [rest [H1 [H2 [H3 _]]]]].
+        destruct o1 as [[]|e|].
+        -- assert (Hd' : disciplined ops (bw {| bw := bw bsk; queue := [] |}) (q_empty {| bw := bw bsk; queue := [] |}) = true)
+             by exact Hd.
+           specialize (IH (y + y1) {| bw := bw bsk; queue := [] |} w1 s1 Hr Hd'). cbn zeta in IH.
            destruct IH as [IH1 IH2]. split; [exact IH1|].
            intros Hdone. rewrite (IH2 Hdone). cbn [queue concat app].
            rewrite (H3 eq_refl) in H1. rewrite app_nil_r in H1. subst w1. rewrite H1.
@@ -196,6 +236,186 @@ Lemma flush_would_block_refutes :
   exists msgs (s : list sev),
   forallb sev_ok s = true /\
   snd (fst (fst (send_all (concat msgs) 0 [] s))) = Done tt /\
+  o_of (bs_run (flight msgs) 0 bs_init [] s) = Raised (SockError EWOULDBLOCK) /\
+  w_of (bs_run (flight msgs) 0 bs_init [] s) <> concat msgs /\
+  queue (b_of (bs_run (flight msgs) 0 bs_init [] s)) = [].
+Proof.
+  exists wb_witness_msgs, wb_witness_script.
+  vm_compute. repeat split; try reflexivity. intros H; discriminate.
+Qed.
+
+(* ==== the generator path (flush_async) over EVERY schedule ================================== *)
+Definition s_of (r : Z * outcome unit * bsock * list Z * list sev) := snd r.
+Definition real_error (e : exc) : Prop := exists n, e = SockError n /\ is_wb n = false.
+
+Lemma no_sync_cons op ops : no_sync_flush (op :: ops) = true ->
+  op <> WFlush /\ no_sync_flush ops = true.
+Proof.
+  unfold no_sync_flush. cbn [forallb]. intros H. apply andb_true_iff in H. destruct H as [H1 H2].
+  split; [intros ->; discriminate|exact H2].
+Qed.
+
+(* any disciplined mixture of buffered sends, direct sends and flush_async over ANY schedule
+   (would-blocks, partial accepts, failures, exhaustion):
+   - completes  => wire ++ queue is exactly the data sent so far, in order;
+   - raises     => only a real socket error of the schedule, never a would-block;
+   - suspended  => only because the schedule is exhausted. *)
+Lemma bs_run_order_full : forall ops y bsk wire s,
+  no_sync_flush ops = true ->
+  disciplined ops (bw bsk) (q_empty bsk) = true ->
+  let r := bs_run ops y bsk wire s in
+  (o_of r = Done tt ->
+     w_of r ++ concat (queue (b_of r)) = wire ++ concat (queue bsk) ++ sent_data ops) /\
+  (forall e, o_of r = Raised e -> real_error e) /\
+  (o_of r = Pending -> s_of r = []).
+Proof.
+  induction ops as [|op ops IH]; intros y bsk wire s Hns Hd; cbn zeta.
+  - cbn. split; [intros _; rewrite app_nil_r; reflexivity|]. split; intros; discriminate.
+  - destruct (no_sync_cons op ops Hns) as [Hop Hns'].
+    destruct op as [d| | |v]; [| congruence | |]; cbn [bs_run]; rewrite sent_data_cons; cbn [disciplined] in Hd.
+    + (* WSend *)
+      unfold bs_send_all. destruct (bw bsk) eqn:Eb.
+      * assert (Hd' : disciplined ops true (q_empty {| bw := true; queue := queue bsk ++ [d] |}) = true).
+        { destruct (q_empty {| bw := true; queue := queue bsk ++ [d] |}); [apply disciplined_weaken|]; exact Hd. }
+        specialize (IH (y + 0) {| bw := true; queue := queue bsk ++ [d] |} wire s Hns' Hd').
+        cbn zeta in IH. destruct IH as [IH1 IH2]. split; [|exact IH2].
+        intros Hdone. rewrite (IH1 Hdone). cbn [queue]. rewrite concat_snoc, <- !app_assoc. reflexivity.
+      * apply andb_true_iff in Hd. destruct Hd as [Hq Hd].
+        assert (Hq' : concat (queue bsk) = []).
+        { unfold q_empty in Hq. apply Z.eqb_eq in Hq. apply zlen_nil. exact Hq. }
+        pose proof (send_all_exact_l s d 0 wire) as Hex. cbn zeta in Hex.
+        destruct (send_all d 0 wire s) as [[[y1 o1] w1] s1].
+        cbn [fst snd] in *. destruct Hex as [sent [rest [H1 [H2 [H3 [H4 H5]]]]]].
+        destruct o1 as [[]|e|].
+        -- assert (Hd2 : disciplined ops (bw bsk) (q_empty bsk) = true) by (rewrite Eb; exact Hd).
+           specialize (IH (y + y1) bsk w1 s1 Hns' Hd2). cbn zeta in IH. destruct IH as [IH1 IH2].
+           split; [|exact IH2]. intros Hdone. rewrite (IH1 Hdone).
+           rewrite (H3 eq_refl) in H1. rewrite app_nil_r in H1. subst sent w1.
+           rewrite Hq'. cbn [app]. rewrite <- app_assoc. reflexivity.
+        -- unfold o_of, s_of. cbn [fst snd]. split; [intros; discriminate|].
+           split; [intros e0 He; injection He as <-; apply H4; reflexivity|intros; discriminate].
+        -- unfold o_of, s_of. cbn [fst snd]. split; [intros; discriminate|].
+           split; [intros; discriminate|intros _; apply H5; reflexivity].
+    + (* WFlushA *)
+      unfold bs_flush_async.
+      destruct (zlen (concat (queue bsk)) =? 0) eqn:Ez.
+      * assert (Hd' : disciplined ops (bw {| bw := bw bsk; queue := [] |}) (q_empty {| bw := bw bsk; queue := [] |}) = true)
+          by exact Hd.
+        specialize (IH (y + 0) {| bw := bw bsk; queue := [] |} wire s Hns' Hd'). cbn zeta in IH.
+        destruct IH as [IH1 IH2]. split; [|exact IH2].
+        intros Hdone. rewrite (IH1 Hdone). cbn [queue concat app].
+        apply Z.eqb_eq in Ez. apply zlen_nil in Ez. rewrite Ez. reflexivity.
+      * rewrite flush_loop_is_send_all.
+        pose proof (send_all_exact_l s (concat (queue bsk)) 0 wire) as Hex. cbn zeta in Hex.
+        destruct (send_all (concat (queue bsk)) 0 wire s) as [[[y1 o1] w1] s1].
+        cbn [fst snd] in *. destruct Hex as [sent [rest [H1 [H2 [H3 [H4 H5]]]]]].
+        destruct o1 as [[]|e|].
+        -- assert (Hd' : disciplined ops (bw {| bw := bw bsk; queue := [] |}) (q_empty {| bw := bw bsk; queue := [] |}) = true)
+             by exact Hd.
+           specialize (IH (y + y1) {| bw := bw bsk; queue := [] |} w1 s1 Hns' Hd'). cbn zeta in IH.
+           destruct IH as [IH1 IH2]. split; [|exact IH2].
+           intros Hdone. rewrite (IH1 Hdone). cbn [queue concat app].
+           rewrite (H3 eq_refl) in H1. rewrite app_nil_r in H1. subst w1. rewrite H1.
+           rewrite <- app_assoc. reflexivity.
+        -- unfold o_of, s_of. cbn [fst snd]. split; [intros; discriminate|].
+           split; [intros e0 He; injection He as <-; apply H4; reflexivity|intros; discriminate].
+        -- unfold o_of, s_of. cbn [fst snd]. split; [intros; discriminate|].
+           split; [intros; discriminate|intros _; apply H5; reflexivity].
+    + (* WBuffer *)
+      apply andb_true_iff in Hd. destruct Hd as [_ Hd].
+      apply (IH y (bs_set_buffering v bsk) wire s Hns'). exact Hd.
+Qed.
+
+(* a buffered flight IS one _sockSendAll of the concatenated messages: same yields, outcome,
+   wire and remaining schedule, for every schedule *)
+Lemma run_buffered_sends : forall msgs y bsk wire s tail,
+  bw bsk = true ->
+  bs_run (map WSend msgs ++ tail) y bsk wire s =
+  bs_run tail y {| bw := true; queue := queue bsk ++ msgs |} wire s.
+Proof.
+  induction msgs as [|m ms IH]; intros y bsk wire s tail Hb; cbn [map app].
+  - rewrite app_nil_r. destruct bsk as [b q]. cbn in Hb. subst b. reflexivity.
+  - cbn [bs_run]. unfold bs_send_all. rewrite Hb.
+    rewrite IH by reflexivity. cbn [queue]. rewrite <- app_assoc. cbn [app].
+    replace (y + 0) with y by lia. reflexivity.
+Qed.
+
+Lemma flight_a_is_send_all msgs wire s :
+  zlen (concat msgs) <> 0 ->
+  let '(y, o, w, s') := send_all (concat msgs) 0 wire s in
+  bs_run (flight_a msgs) 0 bs_init wire s =
+  (y, o, match o with Done _ => bs_init | _ => {| bw := true; queue := [] |} end, w, s').
+Proof.
+  intros Hne. unfold flight_a. cbn [bs_run].
+  rewrite run_buffered_sends by reflexivity. cbn [bs_init bs_set_buffering queue app bs_run].
+  unfold bs_flush_async. cbn [queue bw].
+  destruct (zlen (concat msgs) =? 0) eqn:E; [apply Z.eqb_eq in E; contradiction|].
+  rewrite flush_loop_is_send_all.
+  destruct (send_all (concat msgs) 0 wire s) as [[[y o] w] s'].
+  destruct o as [[]|e|]; reflexivity.
+Qed.
+
+Lemma flight_a_empty msgs wire s :
+  zlen (concat msgs) = 0 ->
+  bs_run (flight_a msgs) 0 bs_init wire s = (0, Done tt, bs_init, wire, s).
+Proof.
+  intros He. unfold flight_a. cbn [bs_run].
+  rewrite run_buffered_sends by reflexivity. cbn [bs_init bs_set_buffering queue app bs_run].
+  unfold bs_flush_async. cbn [queue bw]. rewrite He. cbn. reflexivity.
+Qed.
+
+(* the flight pattern over every schedule: exact, ordered, complete when it completes *)
+Lemma flight_a_order msgs wire s :
+  let r := bs_run (flight_a msgs) 0 bs_init wire s in
+  exists sent rest, concat msgs = sent ++ rest /\ w_of r = wire ++ sent /\
+    (o_of r = Done tt -> rest = [] /\ b_of r = bs_init) /\
+    (forall e, o_of r = Raised e -> real_error e) /\
+    (o_of r = Pending -> s_of r = []).
+Proof.
+  cbn zeta. destruct (zlen (concat msgs) =? 0) eqn:E.
+  - apply Z.eqb_eq in E. rewrite (flight_a_empty msgs wire s E).
+    apply zlen_nil in E. exists [], []. rewrite E, !app_nil_r.
+    unfold o_of, w_of, b_of, s_of. cbn [fst snd].
+    split; [reflexivity|]. split; [reflexivity|]. split; [intros _; split; reflexivity|].
+    split; intros; discriminate.
+  - apply Z.eqb_neq in E. pose proof (flight_a_is_send_all msgs wire s E) as H.
+    pose proof (send_all_exact_l s (concat msgs) 0 wire) as Hex. cbn zeta in Hex.
+    destruct (send_all (concat msgs) 0 wire s) as [[[y o] w] s'].
+    rewrite H. cbn [fst snd] in Hex. destruct Hex as [sent [rest [H1 [H2 [H3 [H4 H5]]]]]].
+    exists sent, rest. unfold o_of, w_of, b_of, s_of. cbn [fst snd].
+    split; [exact H1|]. split; [exact H2|].
+    split; [intros Hd; split; [apply H3; exact Hd|rewrite Hd; reflexivity]|].
+    split; [exact H4|exact H5].
+Qed.
+
+(* and it completes on every schedule without hard failures that keeps accepting *)
+Lemma flight_a_completes msgs wire s :
+  forallb pos_accept_or_wb s = true -> Z.max 1 (zlen (concat msgs)) <= n_accepts s ->
+  o_of (bs_run (flight_a msgs) 0 bs_init wire s) = Done tt /\
+  w_of (bs_run (flight_a msgs) 0 bs_init wire s) = wire ++ concat msgs.
+Proof.
+  intros Hs Hn. destruct (zlen (concat msgs) =? 0) eqn:E.
+  - apply Z.eqb_eq in E. rewrite (flight_a_empty msgs wire s E).
+    apply zlen_nil in E. rewrite E, app_nil_r. split; reflexivity.
+  - apply Z.eqb_neq in E. pose proof (flight_a_is_send_all msgs wire s E) as H.
+    pose proof (send_all_completes s (concat msgs) 0 wire Hs Hn) as Hc.
+    pose proof (send_all_exact_l s (concat msgs) 0 wire) as Hex. cbn zeta in Hex.
+    destruct (send_all (concat msgs) 0 wire s) as [[[y o] w] s'].
+    rewrite H. cbn [fst snd] in *. subst o. unfold o_of, w_of. cbn [fst snd].
+    destruct Hex as [sent [rest [H1 [H2 [H3 _]]]]]. rewrite (H3 eq_refl), app_nil_r in H1.
+    subst sent. split; [reflexivity|exact H2].
+Qed.
+
+(* on the very schedule that breaks the blocking-socket flush(), the generator flight delivers *)
+Lemma flight_a_on_witness :
+  bs_run (flight_a wb_witness_msgs) 0 bs_init [] wb_witness_script = (2, Done tt, bs_init, [1; 2; 3], []).
+Proof. vm_compute. reflexivity. Qed.
+
+Lemma sync_flush_wouldblock_witness :
+  exists msgs (s : list sev),
+  forallb sev_ok s = true /\
+  snd (fst (fst (send_all (concat msgs) 0 [] s))) = Done tt /\
+  o_of (bs_run (flight_a msgs) 0 bs_init [] s) = Done tt /\
   o_of (bs_run (flight msgs) 0 bs_init [] s) = Raised (SockError EWOULDBLOCK) /\
   w_of (bs_run (flight msgs) 0 bs_init [] s) <> concat msgs /\
   queue (b_of (bs_run (flight msgs) 0 bs_init [] s)) = [].
